@@ -27,6 +27,7 @@ def setup():
 
 def run(ctx):
     res, broken = vlib.proof_step(ctx, PROJ, "C06", genparams)
+    res, broken = cc.compose_step(ctx, "C06", res, broken)
     hbin, dbin = cc.build_tools()
     rbin, out = vlib.go_build("cronh", race=True)
     if rbin is None:
